@@ -51,7 +51,7 @@ FLIPS = {
     "flip:precond": ("min_preconditioning_size", 0),
     "flip:mcs3": ("max_cholesky_size", 3),  # between component size (2, 3) and operator size (6, 9); wins over flip:mcs when both are on
 }
-DERIVS = ["d:add_jitter", "d:add_diagonal", "d:add_low_rank", "d:add_low_rank2", "d:add_low_rank_noroots", "d:cat_rows", "d:cat_rows2", "d:cat_rows_noinv", "d:index", "d:mT", "d:mul2", "d:expand"]
+DERIVS = ["d:add_jitter", "d:add_diagonal", "d:add_low_rank", "d:add_low_rank2", "d:add_low_rank_noroots", "d:cat_rows", "d:cat_rows2", "d:cat_rows_noinv", "d:index", "d:index_tail", "d:mT", "d:mul2", "d:expand"]
 
 
 def alphabet(tier):
@@ -315,6 +315,8 @@ def derive(op, M, d):
         return child, torch.cat([top, bot], dim=-2)
     if d == "d:index":
         return op[..., : n - 1, : n - 1], M[..., : n - 1, : n - 1]
+    if d == "d:index_tail":  # a principal block that does not start at row 0
+        return op[..., 1:, 1:], M[..., 1:, 1:]
     if d == "d:mT":
         return op.mT, M.mT
     if d == "d:mul2":
@@ -327,9 +329,8 @@ def derive(op, M, d):
 CACHE_NAMES = ("cholesky", "root_decomposition", "root_inv_decomposition", "svd", "diagonalization")
 
 
-def check_transplants(child, Mc, tol, tol_inv):
-    """every factorization sitting in the child's cache right after a derivation must factorize the child's matrix"""
-    bad = []
+def cache_checks(child, Mc, tol, tol_inv):
+    """multiplies out every factorization sitting in the operator's cache: yields (cache key, name, args, kwargs, ok, message)"""
     cache = getattr(child, "_memoize_cache", None) or {}
     for key, val in list(cache.items()):
         name = key[0] if isinstance(key, tuple) else key
@@ -360,11 +361,41 @@ def check_transplants(child, Mc, tol, tol_inv):
                 d = ((V * e.unsqueeze(-2)) @ V.mT - Mc).abs().max().item()
                 ok = d <= tol
         except Exception as e:  # noqa: B902
-            bad.append(f"cached {name}{args}{kw}: cannot be multiplied out ({type(e).__name__}: {str(e)[:80]})")
+            yield key, name, args, kw, False, f"cached {name}{args}{kw}: cannot be multiplied out ({type(e).__name__}: {str(e)[:80]})"
             continue
-        if not ok:
-            bad.append(f"cached {name}{args}{kw} carried over to the derived operator is off by {d:.3g}")
-    return bad
+        yield key, name, args, kw, ok, (None if ok else f"cached {name}{args}{kw} is off by {d:.3g}")
+
+
+def check_transplants(child, Mc, tol, tol_inv):
+    """every factorization sitting in the child's cache right after a derivation must factorize the child's matrix"""
+    return [msg.replace(" is off by", " carried over to the derived operator is off by") for _, _, _, _, ok, msg in cache_checks(child, Mc, tol, tol_inv) if not ok]
+
+
+def tols_for(Ma, base):
+    na = Ma.shape[-1]
+    eva = torch.linalg.eigvalsh(Ma)
+    conda = (eva[..., -1] / eva[..., 0].clamp_min(1e-300)).max().item()
+    scalea = max(1.0, Ma.abs().amax().item())
+    pda = bool((eva[..., 0] > 1e-6 * eva[..., -1]).all())
+    return base * conda * scalea * na, (base * conda * na * 10 * max(1.0, 1.0 / eva.min().item()) if pda else float("inf"))
+
+
+def ancestor_cache_findings(watch, before, base):
+    """after a step on a derived operator: every factorization cached on an ancestor must still (or, if new, at all) factorize the ancestor's
+    matrix, unless a fresh copy of the ancestor computes an invalid one by itself (that is C06's business)"""
+    viol, ood = [], []
+    for (opa, Ma), bad_before in zip(watch, before):
+        tol, tol_inv = tols_for(Ma, base)
+        for key, name, args, kw, ok, msg in cache_checks(opa, Ma, tol, tol_inv):
+            if ok or key in bad_before:
+                continue
+            fresh = call(lambda: getattr(opa.clone(), name))
+            own = call(lambda: fresh(*args, **kw)) if not isinstance(fresh, Raised) else fresh
+            own_bad = True
+            if not isinstance(own, Raised):
+                own_bad = any((not ok2) for key2, _, _, _, ok2, _ in cache_checks(fresh.__self__, Ma, tol, tol_inv) if key2 == key)
+            (ood if own_bad else viol).append(f"{type(opa).__name__}: {msg}")
+    return viol, ood
 
 
 class Explorer:
@@ -407,7 +438,10 @@ class Explorer:
         op, M = self.fresh()
         sp = ()
         self.chain = [M]  # the matrices of the derivation chain: caches of the ancestors live on inside derived operators
+        self.anc = []  # the ancestor objects themselves
         for a in hist:
+            if a.startswith("d:"):
+                self.anc.append((op, M))
             op, M, sp, _ = self.step(op, M, sp, a)
             if a.startswith("d:"):
                 self.chain.append(M)
@@ -482,10 +516,13 @@ def run(case):
                 if isinstance(built, Raised):
                     break  # the history itself raised on replay (recorded when it was first taken)
                 op, M, sp = built
-                if a == "d:index" and M.shape[-1] < 2:
+                if a in ("d:index", "d:index_tail") and M.shape[-1] < 2:
                     continue
                 hist_paths = env.linalg_paths()
                 fp_before = fingerprint(op, sp)
+                watch = [] if a in FLIPS else [w for w in list(ex.anc) + ([(op, M)] if a.startswith("d:") else []) if w[1].shape[-1] == w[1].shape[-2]]
+                base_h = 20 * jitter if ({"Lanczos", "CG"} & hist_paths) else 1e-9
+                anc_before = [{k for k, _, _, _, ok_, _ in cache_checks(w[0], w[1], *tols_for(w[1], base_h)) if not ok_} for w in watch]
                 out = call(ex.step, op, M, sp, a)
                 trans += len(hist) + 1
                 q_paths = env.linalg_paths()
@@ -525,6 +562,16 @@ def run(case):
                         subs.append(result(VIOL, kind="history-raise", exc=out.type, msg=f"raises only after the history: {out.msg} @ {out.where()}", feat=feat, keys=[key]))
                     continue
                 op2, M2, sp2, obs = out
+                if watch and not (a.startswith("d:") and op2 is op):
+                    base_a = 20 * jitter if ({"Lanczos", "CG", "MINRES", "Pivoted Cholesky"} & (hist_paths | q_paths)) else 1e-9
+                    av, ao = ancestor_cache_findings(watch, anc_before, base_a)
+                    if av:
+                        subs.append(result(VIOL, kind="ancestor-cache", msg=f"after {a} on the derived operator a factorization cached on an operator it was derived from no longer "
+                                           "factorizes that operator: " + "; ".join(av)[:300], feat=feat, keys=[key + "|anc"]))
+                    elif ao:
+                        subs.append(result(OOD, msg="an ancestor's own factorization is invalid (C06): " + "; ".join(ao)[:200], feat=feat, keys=[key + "|anc"], nontrivial=False))
+                    else:
+                        subs.append(result(OK, feat=feat, keys=[key + "|anc"], nontrivial=any(getattr(w[0], "_memoize_cache", None) for w in watch)))
                 fp_after = fingerprint(op2, sp2)
                 states.add(fp_after)
                 extend = fp_after not in seen
